@@ -11,11 +11,24 @@ inductive NumDesc
   | rat (num den : Nat)
   | test (fixed rep : List Int) (exp : Int)
   | finite (fixed : List Int) (exp : Int)
-  | gen (len : Int) (exp : Int) (ill : Bool) (first : Option Int)
+  | gen (len : Int) (exp : Int) (ill : Bool) (first : Option Int) (hashed : Bool)
 deriving Repr
+
+/-- digit function of H sources (same as harness `hashDigit`): 32-bit multiplicative hash -/
+def hashDigit (p : Nat) : Nat :=
+  if p = 0 then 3 else
+  let m := 4294967296
+  let x := ((p + 1) % m * 2654435761) % m
+  let x := x ^^^ (x >>> 15)
+  let x := (x * 2246822519) % m
+  let x := x ^^^ (x >>> 13)
+  x % 10
 
 /-- digit function of G sources (same as harness `genDigit`) -/
 def genDigit (p : Nat) : Nat := if p = 0 then 3 else (p * p / 7 + p * 3 + p / 13 + p / 101 * 7) % 10
+
+/-- digit function of a generator-backed source -/
+def srcDigit (hashed : Bool) (p : Nat) : Nat := if hashed then hashDigit p else genDigit p
 
 def parseNumDesc (s : String) : Option NumDesc :=
   match s.splitOn ":" with
@@ -37,8 +50,9 @@ def parseNumDesc (s : String) : Option NumDesc :=
   -- TE: empty lists passed as empty non-nil slices
   | ["TE", f, r, e] => do pure (.test (← intList f) (← intList r) (← e.toInt?))
   | ["FM", f, e] => do pure (.finite (← intList f) (← e.toInt?))
-  | ["G", l, e, i] => do pure (.gen (← l.toInt?) (← e.toInt?) (i != "0") none)
-  | ["G", l, e, i, f] => do pure (.gen (← l.toInt?) (← e.toInt?) (i != "0") (some (← f.toInt?)))
+  | ["G", l, e, i] => do pure (.gen (← l.toInt?) (← e.toInt?) (i != "0") none false)
+  | ["H", l, e, i] => do pure (.gen (← l.toInt?) (← e.toInt?) (i != "0") none true)
+  | ["G", l, e, i, f] => do pure (.gen (← l.toInt?) (← e.toInt?) (i != "0") (some (← f.toInt?)) false)
   | _ => none
 
 /-- pattern: "e" empty, "nil" nil, else '_'-separated ints -/
